@@ -25,6 +25,7 @@ from unittest import mock
 
 from . import coqlit as L
 from . import c20race
+from . import c20lin
 from .core import Prop, rp_import
 
 NKEYS = 6
@@ -243,16 +244,19 @@ class C20(Prop):
     module = 'c20'
     title = 'Raptor workers and masters account for every request'
     props_files = ['Props/C20.v']
-    extra_targets = ['Raptor/Oracle.vo', 'Raptor/RaceOracle.vo']
-    model_targets = ['Raptor/Oracle.vo', 'Raptor/RaceOracle.vo']
+    extra_targets = ['Raptor/Oracle.vo', 'Raptor/RaceOracle.vo', 'Raptor/Lin.vo']
+    model_targets = ['Raptor/Oracle.vo', 'Raptor/RaceOracle.vo', 'Raptor/Lin.vo']
     translators = []
-    header = 'From RP Require Import Raptor.Model Raptor.Oracle Raptor.Race Raptor.RaceOracle.'
+    header = 'From RP Require Import Raptor.Model Raptor.Oracle Raptor.Race Raptor.RaceOracle Raptor.Lin.'
     clauses = ['disjoint', 'accounting', 'quiescent_free', 'each_once', 'target_state', 'routing',
-               'forwarding', 'truthful', 'env_python', 'env_process', 'stdio']
+               'forwarding', 'truthful', 'env_python', 'env_process', 'stdio', 'threads_alive']
     corr_name = ('Raptor.Model (wrun/master_result/master_request/submit_tasks/drun/srun) vs DefaultWorker._request_cb/'
                  '_result_cb/_alloc/_dealloc, Master._result_cb/_request_cb/_submit_tasks, Worker._dispatch_*, '
                  'AgentSchedulingComponent._schedule_incoming/control_cb')
-    rule = ('corpus, then schedules of the dispatcher/task-process protocol of the real DefaultWorker._dispatch (the task '
+    rule = ('corpus, then two-thread cases (one real thread held after its k-th line inside the bookkeeping code, the other run to '
+            'completion or until blocked: worker intake vs result callback vs intake vs own completion at every hold point of fixed pairs '
+            'and at sampled hold points of random pairs; master result callbacks from two threads, _run_task vs its result, worker table, '
+            'heartbeat pass vs registration/submission), then schedules of the dispatcher/task-process protocol of the real DefaultWorker._dispatch (the task '
             'process makes j steps, the timeout expires, the dispatcher makes k steps, the task process makes m steps, for all '
             'j,k,m and every payload ending; random schedules; thorough: every sequence of <= 8 choices), each followed by the real '
             '_result_watcher on the queued results and a later request; then the 16 ways a payload process can end under the real DefaultWorker._dispatch (return, raise, '
@@ -274,6 +278,8 @@ class C20(Prop):
         'inside Coq by vm_compute with the model',
         'process-level environment observed with libc getenv (ctypes) in the worker process',
         'DefaultWorker._dispatch is run for real in a forked process (mp.Process, mp.Queue) on 16 payload endings',
+        'harness/c20lin.py + harness/interleave.py: two real threads, one held by a sys.settrace line tracer; statement-level '
+        'granularity, atomicity of single dict/list operations under the GIL trusted',
         'harness/c20race.py: the real _dispatch/_worker_proc on fake Lock/Event/Process/queue objects that park before every '
         'synchronisation operation (one model step each) under a step scheduler; atomicity of the real mp primitives trusted',
         'modelled, not verified: the time-out race of _dispatch (duplicate report), result queue transport between '
@@ -401,6 +407,10 @@ class C20(Prop):
         for c in self.gen_procend():
             yield c
         for c in c20race.gen_cases(rng, tier):
+            yield c
+        for c in c20lin.gen_wlin(rng, tier):
+            yield c
+        for c in c20lin.gen_mlin(rng, tier):
             yield c
         for _ in range(400 if quick else 8000):
             yield self.gen_worker(rng, big=not quick)
@@ -740,6 +750,12 @@ class C20(Prop):
         return {'per_req': out}
 
     # .......................................................... process wrapper
+    def impl_wlin(self, case):
+        return c20lin.impl_wlin(case)
+
+    def impl_mlin(self, case):
+        return c20lin.impl_mlin(case)
+
     def impl_race(self, case):
         return c20race.impl_race(case)
 
@@ -911,9 +927,24 @@ class C20(Prop):
             {'return': 'PReturn', 'raise': 'PRaise'}[e[0]]
 
     def coq_row(self, case, obs):
+        # last clause, threads_alive: no raptor service thread (result watcher, heartbeat thread, the
+        # callback threads of a two-thread case) ended with an exception
+        k = case['kind']
+        alive = True
+        if k == 'race':
+            alive = bool(obs['alive'])
+        elif k in ('wlin', 'mlin'):
+            alive = not obs['errs'] and obs.get('alive', True)
+        return '(%s ++ [%s])' % (self._coq_row(case, obs), L.boolean(alive))
+
+    def _coq_row(self, case, obs):
         k = case['kind']
         if k == 'race':
             return c20race.coq_row(case, obs)
+        if k == 'wlin':
+            return c20lin.wlin_row(case, obs)
+        if k == 'mlin':
+            return c20lin.mlin_row(case, obs)
         if k == 'procend':
             return '(c20_procend_row %s %s)' % (self._pend(case), L.lst(
                 ['(%s, %s)' % (L.Z(r), L.boolean(x)) for r, x in obs['results']]))
@@ -948,6 +979,10 @@ class C20(Prop):
         k = case['kind']
         if k == 'race':
             return c20race.model_show(case)
+        if k == 'wlin':
+            return c20lin.wlin_show(case)
+        if k == 'mlin':
+            return c20lin.mlin_show(case)
         if k == 'procend':
             return 'proc_results %s' % self._pend(case)
         if k == 'worker':
@@ -970,6 +1005,8 @@ class C20(Prop):
     # ------------------------------------------------------------------ misc
     def nontrivial(self, case, obs):
         k = case['kind']
+        if k in ('wlin', 'mlin'):
+            return bool(obs['held'])
         if k == 'race':
             # the two parties really interleave after the timeout expired
             ps = [e[0] for e in obs['trace']]
@@ -996,7 +1033,7 @@ class C20(Prop):
         kinds = set(e[0] for e in obs['evs'])
         return 'put' in kinds and (bool(obs['backlog']) or 'fail' in kinds or 'cancel' in kinds)
 
-    SITE = dict(race='DefaultWorker._dispatch/_result_watcher', procend='DefaultWorker._dispatch', worker='DefaultWorker._request_cb/_result_cb', mresult='Master._result_cb',
+    SITE = dict(wlin='DefaultWorker two threads', mlin='Master two threads', race='DefaultWorker._dispatch/_result_watcher', procend='DefaultWorker._dispatch', worker='DefaultWorker._request_cb/_result_cb', mresult='Master._result_cb',
                 mrequest='Master._request_cb', msubmit='Master._submit_tasks', dispatch='Worker._dispatch',
                 sched='AgentSchedulingComponent._schedule_incoming/control_cb')
 
@@ -1007,6 +1044,10 @@ class C20(Prop):
             oob = any(not (1 <= (c if c is not None else 1) <= case['nc'] and 0 <= (g or 0) <= case['ng'])
                       for o in case['ops'] if o[0] == 'req' for _, c, g, _sf in o[1])
             cond = ':demand-beyond-worker' if oob else ':demand-within-worker'
+        if k == 'wlin':
+            cond = ':%s-held-vs-%s' % (case['first'][0], case['second'][0])
+        if k == 'mlin':
+            cond = ':' + case['sub']
         if k == 'race':
             n = len(obs['queue'])
             cond = ':%s' % ('no-result' if n == 0 else 'one-result' if n == 1 else 'reported-%d-times' % n)
@@ -1019,6 +1060,13 @@ class C20(Prop):
         if k == 'race':
             for c in c20race.shrink(case):
                 yield c
+            return
+        if k == 'wlin':
+            for i in range(len(case['prefix'])):
+                if case['second'][0] != 'fin' and case['first'][0] != 'fin':
+                    yield dict(case, prefix=case['prefix'][:i] + case['prefix'][i + 1:])
+            return
+        if k == 'mlin':
             return
         if k in ('worker', 'sched'):
             ops = case['ops']
